@@ -9,6 +9,7 @@ import (
 
 	"google.golang.org/protobuf/encoding/protojson"
 	"google.golang.org/protobuf/encoding/prototext"
+	"google.golang.org/protobuf/encoding/protowire"
 	"google.golang.org/protobuf/proto"
 	"google.golang.org/protobuf/reflect/protopath"
 	"google.golang.org/protobuf/reflect/protorange"
@@ -196,6 +197,30 @@ func (dynResolver) FindExtensionByNumber(protoreflect.FullName, protoreflect.Fie
 	return nil, protoregistry.NotFound
 }
 
+// wrongWireRecord encodes one record whose number is a field md declares and
+// whose wire type is not the one that field uses (nor its packed alternative).
+func wrongWireRecord(md protoreflect.MessageDescriptor, pick uint64) []byte {
+	fds := md.Fields()
+	if fds.Len() == 0 {
+		return nil
+	}
+	fd := fds.Get(int(pick % uint64(fds.Len())))
+	declared := protowire.VarintType
+	switch fd.Kind() {
+	case protoreflect.Fixed32Kind, protoreflect.Sfixed32Kind, protoreflect.FloatKind:
+		declared = protowire.Fixed32Type
+	case protoreflect.Fixed64Kind, protoreflect.Sfixed64Kind, protoreflect.DoubleKind:
+		declared = protowire.Fixed64Type
+	case protoreflect.StringKind, protoreflect.BytesKind, protoreflect.MessageKind:
+		declared = protowire.BytesType
+	}
+	// fixed32 vs fixed64 never collide with the packed alternative (bytes)
+	if declared == protowire.Fixed32Type {
+		return protowire.AppendFixed64(protowire.AppendTag(nil, fd.Number(), protowire.Fixed64Type), 7)
+	}
+	return protowire.AppendFixed32(protowire.AppendTag(nil, fd.Number(), protowire.Fixed32Type), 7)
+}
+
 func jsonSemantic(b []byte) (interface{}, error) {
 	var v interface{}
 	err := json.Unmarshal(b, &v)
@@ -221,6 +246,44 @@ func checkC10(ctx *Ctx, c *Case) error {
 		// map value) held the other way, nil <-> []byte{}: no algorithm may notice
 		if model.FlipEmptyBytes(p) > 0 {
 			ctx.Label("empty bytes held the other way")
+		}
+	}
+	if (c.Sub == "clone" || c.Sub == "merge" || c.Sub == "equal" || c.Sub == "selfmerge") && digest(c.Bytes, "wrongwire")%4 == 0 {
+		// an unknown record that uses a DECLARED field number with another wire type:
+		// protobuf-go keeps such a record among the unknown fields, so it is an
+		// ordinary value for the generic algorithms (it arrives through SetUnknown
+		// or a Merge from another implementation), although no decoder of the type
+		// would produce it
+		// placed in the first populated child message (singular or first list
+		// element) when there is one, else at the top level
+		target := func(m protoreflect.Message) protoreflect.Message {
+			fds := m.Descriptor().Fields()
+			for i := 0; i < fds.Len(); i++ {
+				fd := fds.Get(i)
+				if fd.Message() == nil || fd.IsMap() || !m.Has(fd) {
+					continue
+				}
+				if fd.IsList() {
+					if l := m.Get(fd).List(); l.Len() > 0 && l.Get(0).Message().IsValid() {
+						return l.Get(0).Message()
+					}
+					continue
+				}
+				if c := m.Mutable(fd).Message(); c.IsValid() {
+					return c
+				}
+			}
+			return m
+		}
+		tp, td := target(p.ProtoReflect()), target(d.ProtoReflect())
+		if tp.Descriptor().FullName() == td.Descriptor().FullName() {
+			if rec := wrongWireRecord(td.Descriptor(), digest(c.Bytes, "whichfield")); rec != nil {
+				for _, m := range []protoreflect.Message{tp, td} {
+					m.SetUnknown(append(append(protoreflect.RawFields(nil), m.GetUnknown()...), rec...))
+				}
+				want = canonD(d.ProtoReflect())
+				ctx.Label("unknown record with a declared number and another wire type")
+			}
 		}
 	}
 	switch c.Sub {
